@@ -15,6 +15,8 @@ pub fn kinds_for(prop: &str) -> Vec<&'static str> {
         "C09" => vec!["model", "clone-count", "lazy", "dup", "double-drop", "handle"],
         "C10" => vec!["capacity", "len>cap", "model", "garbage"],
         "C14" => vec!["iter", "model"],
+        "C04" => vec!["type-admit", "type-reject", "type-meta", "double-drop", "corrupt-drop", "dup", "leak"],
+        "C12" => vec!["view", "align", "garbage"],
         "C05" => vec!["guard", "stale-write", "garbage", "corrupt-drop", "corrupt-clone", "len>cap", "lifecycle", "crash"],
         "C11" => vec!["model", "garbage", "capacity", "stack-alloc", "clone-count"],
         "C18" => vec!["alloc-shape", "alloc-layout", "alloc-invalid", "alloc-leak"],
@@ -76,7 +78,10 @@ pub fn run(ctx: &mut Ctx) {
             cfgs.retain(|c| c.resizable);
             fam::exhaustive(ctx, "capacity", &cfgs, l, false, &fam::cap_ops);
             fam::histories(ctx, "capacity-hist", &cfgs, &hist(thorough, true, true, true, false));
+            crate::special::c10_amortised(ctx);
         }
+        "C04" => crate::special::c04(ctx),
+        "C12" => crate::special::c12(ctx),
         "C14" => {
             fam::exhaustive(ctx, "iter", &cfgs, l, false, &fam::iter_ops);
             fam::exhaustive(ctx, "range", &cfgs, l, false, &fam::range_ops);
@@ -103,6 +108,7 @@ pub fn run(ctx: &mut Ctx) {
             fam::exhaustive(ctx, "clone", &cfgs, l, false, &fam::clone_ops);
             fam::exhaustive(ctx, "lazy", &cfgs, l.min(5), false, &fam::lazy_ops);
             fam::histories(ctx, "mixed-hist", &cfgs, &hist(thorough, true, true, false, true));
+            crate::special::c11_grid(ctx);
         }
         "C18" => {
             cfgs.retain(|c| c.mem == hvcore::rigapi::MemKind::Heap && !c.elem.heap);
@@ -111,6 +117,9 @@ pub fn run(ctx: &mut Ctx) {
             fam::exhaustive(ctx, "capacity", &cfgs, l, false, &fam::cap_ops);
             fam::exhaustive(ctx, "clone", &cfgs, 3, false, &fam::clone_ops);
             fam::histories(ctx, "mixed-hist", &cfgs, &hist(thorough, true, true, true, true));
+            if ctx.sub != "light" && !ctx.tool_mode {
+                crate::special::c18_overflow(ctx);
+            }
         }
         "C06" => {
             use hvcore::rigapi::MemKind;
@@ -132,6 +141,7 @@ pub fn run(ctx: &mut Ctx) {
             cfgs.retain(|c| c.mem == hvcore::rigapi::MemKind::Heap);
             fam::exhaustive(ctx, "rawparts", &cfgs, l.min(5), false, &fam::rawparts_ops);
             fam::histories(ctx, "rawparts-hist", &cfgs, &hist(thorough, true, true, true, true));
+            crate::special::c17_empty(ctx);
         }
         other => {
             eprintln!("unknown property {other}");
